@@ -150,6 +150,20 @@ def gen_cases(tier, rng):
                 for t in range(0, 10):
                     i = tgt + rng.randrange(0, 4)
                     cases.append("cv09 %s 0 %s %s %d:%d:%d" % (variant, extra, hexs(w), t, i, 0 if w[i] else 0x41))
+    # copy_and_verify on a pointer-to-STRUCT cell: the cell (4 bytes at 0) designates struct A (at 8) or B (at 16); the schedule
+    # is indexed by the interleave points AND the read notifications of the cell in program order (0 = cv.struct.read,
+    # 1 = the fetch of the cell, 2 = cv.struct.verifier): a second fetch of the cell would be a further point
+    for rep in range(2 if q else 8):
+        body = [rng.randrange(256) for _ in range(wl)]
+        for tgt in (8, 16):
+            w = le4(TOT - wl + tgt) + body[4:]
+            cases.append("cv09 ptrsw 0 0 0 %s -" % hexs(w))
+            for new in (TOT - wl + (24 - tgt), 0):
+                nb = le4(new)
+                for t in (0, 1, 2, 3):
+                    cases.append("cv09 ptrsw 0 0 0 %s %s" % (hexs(w), ",".join("%d:%d:%d" % (t, i, nb[i]) for i in range(4))))
+            for t in (0, 1, 2, 3):
+                cases.append("cv09 ptrsw 0 0 0 %s %d:%d:%d" % (hexs(w), t, tgt + rng.randrange(8), rng.randrange(256)))
     return cases
 
 
